@@ -106,6 +106,7 @@ fn main() {
     match args[1].as_str() {
         "rec-ops" => rec_ops(&m),
         "rec-tri" => rec_tri(&m),
+        "rec-fixtures" => ops::rec_fixtures(gets(&m, "file", "")),
         "rec-stages" => {
             let fams: Vec<&str> = gets(&m, "family", "cx").split(',').collect();
             stages::rec_stages(m.contains_key("f32"), &fams, geti(&m, "count", 10) as u64, geti(&m, "seed", 1) as u64, geti(&m, "kmax", 3),
